@@ -190,7 +190,7 @@ func txLookupGone(n *node.Node, b *blockchain.Block) error {
 func runCase(t *rapid.T) {
 	nVal := rapid.IntRange(1, 5).Draw(t, "validators")
 	cfg := node.Config{Genesis: node.EqualGenesis(nVal), BatchSize: rapid.IntRange(nVal, nVal+2).Draw(t, "batch"),
-		MaxBlockCache: rapid.SampledFrom([]int{2, 5, 515}).Draw(t, "cache"), KeepEvents: rapid.SampledFrom([]int{-1, 1, 3, 300}).Draw(t, "keepEvents"),
+		MaxBlockCache: rapid.SampledFrom([]int{2, 5, 515}).Draw(t, "cache"), KeepEvents: rapid.SampledFrom([]int{-1, 1, 3, 300, node.KeepEventsNone}).Draw(t, "keepEvents"),
 		GenesisHeight: 0} // non-zero genesis heights cannot initialise (Chain.PrepareCache reads below genesis): observation O2 in DESIGN.md, outside C05
 	n, err := node.New(cfg)
 	if err != nil {
@@ -278,7 +278,7 @@ func runCase(t *rapid.T) {
 		}
 		hist = append(hist, fmt.Sprintf("DELETE h=%d saveTemp=%v", tip.Header.Height, saveTemp))
 		fr := frames[k-1-i]
-		pruned := eventsPruned(cfg.KeepEvents, tipHeight, fReached)
+		pruned := eventsPruned(node.EngineKeepEvents(cfg.KeepEvents), tipHeight, fReached)
 		before, after := filter(fr.dump, fReached, pruned), filter(n.Dump(), fReached, pruned)
 		if d := diffDumps(before, after); d != "" {
 			t.Fatalf("state after apply+delete differs from state before apply (block h=%d):\n%s\nhistory:\n%s", tip.Header.Height, d, strings.Join(hist, "\n"))
@@ -372,7 +372,7 @@ func runCase(t *rapid.T) {
 				t.Fatalf("delete of foreign block %d failed: %v\nhistory:\n%s", tip.Header.Height, err, strings.Join(hist, "\n"))
 			}
 			hist = append(hist, fmt.Sprintf("DELETE foreign h=%d saveTemp=%v", tip.Header.Height, foreignSaveTemp))
-			pr := eventsPruned(cfg.KeepEvents, top, f2)
+			pr := eventsPruned(node.EngineKeepEvents(cfg.KeepEvents), top, f2)
 			if foreignSaveTemp {
 				tb, err := n.Chain.DataAccess().GetTempBlocks()
 				found := false
@@ -438,7 +438,7 @@ func runCase(t *rapid.T) {
 		if f2 > fm {
 			fm = f2
 		}
-		pr := eventsPruned(cfg.KeepEvents, tipHeight, fm)
+		pr := eventsPruned(node.EngineKeepEvents(cfg.KeepEvents), tipHeight, fm)
 		a, b := filter(n.Dump(), fm, pr), filter(twin.Dump(), fm, pr)
 		if d := diffDumps(a, b); d != "" {
 			t.Fatalf("reorg to sibling differs from twin that applied the sibling directly:\n%s\nhistory:\n%s", d, strings.Join(hist, "\n"))
@@ -634,7 +634,7 @@ func TestTieBreakReorg(t *testing.T) {
 	rapid.Check(t, func(t *rapid.T) {
 		nVal := rapid.IntRange(2, 5).Draw(t, "validators")
 		cfg := node.Config{Genesis: node.EqualGenesis(nVal), BatchSize: nVal + 1, MaxBlockCache: rapid.SampledFrom([]int{2, 5, 515}).Draw(t, "cache"),
-			KeepEvents: rapid.SampledFrom([]int{-1, 1, 3, 300}).Draw(t, "keepEvents")}
+			KeepEvents: rapid.SampledFrom([]int{-1, 1, 3, 300, node.KeepEventsNone}).Draw(t, "keepEvents")}
 		n, err := node.New(cfg)
 		if err != nil {
 			t.Fatalf("node: %v", err)
@@ -687,7 +687,7 @@ func TestTieBreakReorg(t *testing.T) {
 		if tf := twin.Finalized(); tf > f {
 			f = tf
 		}
-		pr := eventsPruned(cfg.KeepEvents, tip.Header.Height, f)
+		pr := eventsPruned(node.EngineKeepEvents(cfg.KeepEvents), tip.Header.Height, f)
 		if d := diffDumps(filterT(n.Dump(), f, pr, true), filterT(twin.Dump(), f, pr, true)); d != "" {
 			t.Fatalf("after the tie break the node differs from a twin that applied the sibling first (temp blocks included):\n%s\nhistory:\n%s", d, strings.Join(hist, "\n"))
 		}
